@@ -466,6 +466,14 @@ func runOnPty(sc ptyScript, chunk int) (problem string) {
 }
 
 func c20Pty(env *lib.Env, rep *lib.Report) {
+	if m, sl, err := openPty(); err != nil {
+		// no pseudo-terminals in this environment: the family cannot run; say so instead of failing
+		rep.Bounds["pty family"] = "NOT RUN: no pseudo-terminal available (" + err.Error() + ")"
+		return
+	} else {
+		m.Close()
+		sl.Close()
+	}
 	scripts := []ptyScript{
 		{"failing statement in the middle of a line",
 			"CREATE DATABASE x1; CREATE DATABASE x1; CREATE DATABASE x2;\r",
